@@ -51,30 +51,54 @@ CONTRACTS = {
 
  # run: fold over the enumeration E[0..N) (T11).  rec('valid')[u] / rec('size')[u] are the specification-level validity and
  # size of the u-th enumerated assignment (ghost history).
+ # run: fold over the enumeration E[0..N) (T11).  rec(x)[u] is the specification-level value of statistic x for the u-th
+ # enumerated assignment (ghost history): validity, size, the two cost pairs, degree, profile, max / sum lecturer deviation.
  M + 'run': dict(
     requires=['sizes_ok(self.model)', 'pairs_ok(self.model)', 'self.model.num_lecturers >= 1'],
-    defs={'PC': ([], 'self.instance_options[Instance_options.PC]')},
+    defs={'PC': ([], 'self.instance_options[Instance_options.PC]'),
+          'V': (['u'], "rec('valid')[u]"), 'TOP': (['u'], "rec('valid')[u] and rec('size')[u] == self.optimal_size"),
+          'lexlt': (['a0', 'a1', 'b0', 'b1'], 'a0 < b0 or (a0 == b0 and a1 < b1)'),
+          'mp': ([], 'matching_pairs'),
+          'devk': (['L', 'k'], 'abs(loadL_upto(L, k, len(L)) - self.model.lec_targets[k])')},
     merge_ifs=True,
     loops={0: dict(
         record={'valid': ('bool', 'all_found(matching_pairs) and valid_list(self.model, matching_pairs, PC())'),
-                'size': ('int', 'len(matching_pairs)')},
+                'size': ('int', 'len(matching_pairs)'),
+                # the statistics computed by the (contracted) helpers for this assignment; only meaningful where valid
+                'c0': ('int', 'cost[0]'), 'c1': ('int', 'cost[1]'), 's0': ('int', 'costsq[0]'), 's1': ('int', 'costsq[1]'),
+                'deg': ('int', 'degree'), 'prof': (('list', 'int'), 'profile'), 'maxdev': ('int', 'max_lec_abs_diff'), 'sumdev': ('int', 'sum_lec_abs_diff')},
         havoc_as={'self.optimal_maxsizemincost': ('self.optimal_size == -1', 'int', ('tuple', 'int', 'int')),
                   'self.optimal_maxsizeminsqcost': ('self.optimal_size == -1', 'int', ('tuple', 'int', 'int'))},
         invariant=[('greedy-profile-has-one-entry-per-rank', 'is_max_rank(self.model, len(self.optimal_greedyprofile))'),
                    'self.optimal_size >= -1',
                    'implies(self.optimal_size >= 0, is_max_rank(self.model, len(self.optimal_generousmaxprofile)) and is_max_rank(self.model, len(self.optimal_greedymaxprofile)))',
-                   ('infeasible-iff-none-valid', "(self.optimal_size == -1) == forall(u, 0, _k, not rec('valid')[u])"),
-                   ('size-upper-bound', "forall(u, 0, _k, implies(rec('valid')[u], rec('size')[u] <= self.optimal_size))"),
-                   ('size-attained', "implies(self.optimal_size >= 0, exists(u, 0, _k, rec('valid')[u] and rec('size')[u] == self.optimal_size))")])},
+                   ('recorded-profiles-have-one-entry-per-rank', "forall(u, 0, _k, implies(V(u), is_max_rank(self.model, len(rec('prof')[u]))))"),
+                   ('infeasible-iff-none-valid', "(self.optimal_size == -1) == forall(u, 0, _k, not V(u))"),
+                   ('size-upper-bound', "forall(u, 0, _k, implies(V(u), rec('size')[u] <= self.optimal_size))"),
+                   ('size-attained', "implies(self.optimal_size >= 0, exists(u, 0, _k, TOP(u)))"),
+                   # over maximum-size matchings: least cost pair, least degree, least squared-cost pair, most generous / greedy profile
+                   ('mincost-lower-bound', "forall(u, 0, _k, implies(TOP(u), not lexlt(rec('c0')[u], rec('c1')[u], self.optimal_maxsizemincost[0], self.optimal_maxsizemincost[1])))"),
+                   ('minsqcost-lower-bound', "forall(u, 0, _k, implies(TOP(u), not lexlt(rec('s0')[u], rec('s1')[u], self.optimal_maxsizeminsqcost[0], self.optimal_maxsizeminsqcost[1])))"),
+                   ('mindegree-lower-bound', "forall(u, 0, _k, implies(TOP(u), self.optimal_maxsizemindegree <= rec('deg')[u]))"),
+                   ('generous-none-better', "forall(u, 0, _k, implies(TOP(u), not more_generous(rec('prof')[u], self.optimal_generousmaxprofile)))"),
+                   ('greedymax-none-better', "forall(u, 0, _k, implies(TOP(u), not more_greedy(rec('prof')[u], self.optimal_greedymaxprofile)))"),
+                   # over all valid matchings: most greedy profile, least maximum / total lecturer deviation (starting from the initial values)
+                   ('greedy-none-better', "forall(u, 0, _k, implies(V(u), not more_greedy(rec('prof')[u], self.optimal_greedyprofile)))"),
+                   ('maxdev-lower-bound', "forall(u, 0, _k, implies(V(u), self.optimal_max_lec_abs_diff <= rec('maxdev')[u]))"),
+                   ('sumdev-lower-bound', "forall(u, 0, _k, implies(V(u), self.optimal_sum_lec_abs_diff <= rec('sumdev')[u]))")])},
     modifies=['self.optimal_size', 'self.optimal_maxsizemincost', 'self.optimal_maxsizeminsqcost', 'self.optimal_maxsizemindegree',
               'self.optimal_generousmaxprofile', 'self.optimal_greedymaxprofile', 'self.optimal_greedyprofile',
               'self.optimal_max_lec_abs_diff', 'self.optimal_sum_lec_abs_diff'],
     ensures=[('profiles-have-one-entry-per-rank', 'is_max_rank(self.model, len(self.optimal_greedyprofile)) and implies(self.optimal_size >= 0, '
               'is_max_rank(self.model, len(self.optimal_generousmaxprofile)) and is_max_rank(self.model, len(self.optimal_greedymaxprofile)))'),
-             ('infeasible-iff-no-valid-assignment', "(self.optimal_size == -1) == forall(u, 0, ENUM_len(), not rec('valid')[u])"),
-             ('optimal-size-is-the-maximum', "forall(u, 0, ENUM_len(), implies(rec('valid')[u], rec('size')[u] <= self.optimal_size))"
-              " and implies(self.optimal_size >= 0, exists(u, 0, ENUM_len(), rec('valid')[u] and rec('size')[u] == self.optimal_size))")]),
-
+             ('infeasible-iff-no-valid-assignment', "(self.optimal_size == -1) == forall(u, 0, ENUM_len(), not V(u))"),
+             ('optimal-size-is-the-maximum', "forall(u, 0, ENUM_len(), implies(V(u), rec('size')[u] <= self.optimal_size))"
+              " and implies(self.optimal_size >= 0, exists(u, 0, ENUM_len(), TOP(u)))"),
+             ('mincost-over-maximum-size', "forall(u, 0, ENUM_len(), implies(TOP(u), not lexlt(rec('c0')[u], rec('c1')[u], self.optimal_maxsizemincost[0], self.optimal_maxsizemincost[1])))"),
+             ('mindegree-over-maximum-size', "forall(u, 0, ENUM_len(), implies(TOP(u), self.optimal_maxsizemindegree <= rec('deg')[u]))"),
+             ('generous-and-greedy-over-maximum-size', "forall(u, 0, ENUM_len(), implies(TOP(u), not more_generous(rec('prof')[u], self.optimal_generousmaxprofile) and not more_greedy(rec('prof')[u], self.optimal_greedymaxprofile)))"),
+             ('greedy-over-all-valid', "forall(u, 0, ENUM_len(), implies(V(u), not more_greedy(rec('prof')[u], self.optimal_greedyprofile)))"),
+             ('deviations-over-all-valid', "forall(u, 0, ENUM_len(), implies(V(u), self.optimal_max_lec_abs_diff <= rec('maxdev')[u] and self.optimal_sum_lec_abs_diff <= rec('sumdev')[u]))")]),
  M + 'get_results': dict(
     self_fields={'optimal_size': 'int', 'optimal_maxsizemincost': ('tuple', 'int', 'int'), 'optimal_maxsizeminsqcost': ('tuple', 'int', 'int'),
                  'optimal_maxsizemindegree': 'int', 'optimal_generousmaxprofile': ('list', 'int'), 'optimal_greedymaxprofile': ('list', 'int'),
